@@ -111,8 +111,11 @@ static void timer_handler(void *ctx) {
 		else if (e->cum + n > boundaries(e, hw)) { ok = 0; snprintf(why, sizeof why, "cumulative data %lu exceeds the %lu interval boundaries passed", (unsigned long)(e->cum + n), (unsigned long)boundaries(e, hw)); }
 		if (ok) { if (!ok_any) ok_latest_only = i; ok_any++; oldest_ok = i; }
 	}
-	// the data is charged to the oldest configuration that explains it (never over-charges a newer one)
-	if (oldest_ok >= 0) t->ep[oldest_ok].cum += n;
+	// the data is charged to a configuration only when no other one in force explains it as well: with two set_timer
+	// calls racing, a first invocation may belong to either, and charging it to the wrong one (the older, repeating
+	// one, when it really was the newer one-shot that the library applied first) made a later, legitimate count look
+	// one too high -- a false alarm seen once in 157 k instrumented-mode runs
+	if (ok_any == 1) t->ep[oldest_ok].cum += n;
 	h_log("timer %d fires data=%lu epochs %d..%d ok=%d", t->id, n, lo, t->nep - 1, ok_any);
 	if (n == 0) T.zero_data++;   // possible after a backward step of the wall clock; the property only bounds the count from above
 	if (!ok_any) {
@@ -190,8 +193,15 @@ static int64_t gen_delta(int *far) {
 	*far = 1;
 	return (int64_t)((3600ull + g_n(200000)) * NSEC);               // hours to days: must never fire
 }
+// the ends of the value range (the configuration code clamps negative-looking values and sums near INT64_MAX)
+static uint64_t gen_leeway(uint32_t span) {
+	static const uint64_t ends[] = { INT64_MAX, UINT64_MAX, 1ull << 63, 1ull << 62, (uint64_t)INT64_MAX - 1 };
+	if (g_chance(1, 20)) return ends[g_n(5)];
+	return g_chance(1, 2) ? 0 : g_n(span);
+}
 static uint64_t gen_interval(void) {
 	uint32_t r = g_n(100);
+	if (r < 3) { static const uint64_t ends[] = { INT64_MAX, 1ull << 62, (1ull << 63) + 5, UINT64_MAX - 1 }; return ends[g_n(4)]; }   // fires once, the second boundary is centuries away
 	if (r < 45) return 0;                                            // one-shot
 	if (r < 75) return 50000 + g_n(400000);                          // 50 .. 450 us
 	return 500000 + g_n(5000000);
@@ -267,7 +277,7 @@ static int pending_liveness(char *buf, size_t cap, int *overdue) {
 		if (e->start > now && e->start - now > 30 * NSEC) continue;   // a clock step moved it out of the horizon
 		n++;
 		if (now >= e->start && !e->due_up) e->due_up = sim_now();
-		int od = e->due_up && sim_now() - e->due_up >= e->leeway + LIVENESS_NS;
+		int od = e->due_up && e->leeway < (1ull << 60) && sim_now() - e->due_up >= e->leeway + LIVENESS_NS;   // (a leeway of centuries: the library may take its time)
 		if (od && overdue) *overdue = 1;
 		if (buf && od && o + 100 < cap) o += (size_t)snprintf(buf + o, cap - o, "timer %d (%s clock, interval %lu ns) has not fired %.3f s after its start time was reached; ",
 			t->id, clk_names[e->clock], (unsigned long)e->interval, (double)(sim_now() - e->due_up) / 1e9);
@@ -301,7 +311,7 @@ static void c11_run(void) {
 	for (int i = 0; i < npop; i++) {
 		pop[i].clock = (int)g_n(3); pop[i].qi = (int)g_n(3); pop[i].strict = g_chance(1, 4);
 		pop[i].delta = gen_delta(&pop[i].far); pop[i].interval = gen_interval();
-		pop[i].leeway = g_chance(1, 2) ? 0 : g_n(200000);
+		pop[i].leeway = gen_leeway(200000);
 		idx++;
 	}
 	for (int th = 0; th < T.nth; th++) {
@@ -311,7 +321,7 @@ static void c11_run(void) {
 			uint32_t r = g_n(100);
 			op->kind = r < 18 ? TO_PAUSE : r < 25 ? TO_BLOCK_QUEUE : r < 40 ? TO_NEW : r < 58 ? TO_AFTER : r < 68 ? TO_RECONF_OTHER : r < 76 ? TO_RECONF_HANDLER : r < 84 ? TO_RECONF_SUSPENDED : r < 92 ? TO_SUSPEND_RESUME : TO_CANCEL;
 			op->tm = (int)g_n(64); op->clock = (int)g_n(3); op->qi = (int)g_n(3); op->form = (int)g_n(2);
-			op->delta = gen_delta(&op->far); op->interval = gen_interval(); op->leeway = g_chance(1, 2) ? 0 : g_n(100000);
+			op->delta = gen_delta(&op->far); op->interval = gen_interval(); op->leeway = gen_leeway(100000);
 			op->pause = (uint64_t)g_range(5, 600) * USEC;
 		}
 	}
